@@ -3,6 +3,7 @@ package main
 import (
 	"fmt"
 	"go/ast"
+	"math/big"
 	"strings"
 	"go/token"
 	"go/types"
@@ -377,6 +378,7 @@ func (tr *Tr) havocLoop(fr *Frame, li *loopInfo) {
 	events := false
 	all := false
 	newOnly := map[string]bool{} // keys written only in regions allocated during the loop
+	typed := map[string][]types.Type{} // keys written only in objects allocated with one of these struct types
 	addRoot := func(v ssa.Value, keys []string) {
 		root := rootOf(v)
 		if in, ok := root.(ssa.Instruction); ok && li.blocks[in.Block()] {
@@ -394,6 +396,22 @@ func (tr *Tr) havocLoop(fr *Frame, li *loopInfo) {
 					newOnly[k] = true
 				}
 				return
+			}
+			// a pointer to a struct object obtained inside the loop (e.g. an element of a slice of pointers):
+			// the write changes only objects allocated with that struct type (checked where the write happens)
+			if pt, ok := root.Type().Underlying().(*types.Pointer); ok {
+				if _, isStruct := pt.Elem().Underlying().(*types.Struct); isStruct {
+					if _, named := pt.Elem().(*types.Named); named {
+						for _, k := range keys {
+							typed[k] = append(typed[k], pt.Elem())
+						}
+						if li.typeFramed == nil {
+							li.typeFramed = map[string]bool{}
+						}
+						li.typeFramed[types.TypeString(pt.Elem(), nil)] = true
+						return
+					}
+				}
 			}
 			for _, k := range keys {
 				fullKeys[k] = true
@@ -473,7 +491,36 @@ func (tr *Tr) havocLoop(fr *Frame, li *loopInfo) {
 	}
 	preAlloc := tr.get(fr.st, "alloc")
 	for _, k := range heapKeys {
-		if !newOnly[k] || fullKeys[k] {
+		if len(typed[k]) == 0 || fullKeys[k] {
+			continue
+		}
+		// regions not allocated with one of the written struct types are unchanged
+		old := tr.get(fr.st, heapComp(k))
+		nh := f.Fresh("Htyped"+k, old.S)
+		r := f.BoundVar("r", S64)
+		var isT []*Term
+		seenT := map[string]bool{}
+		for _, t := range typed[k] {
+			if !seenT[t.String()] {
+				seenT[t.String()] = true
+				isT = append(isT, f.Eq(tr.rtype(r), f.BVu(64, typeTag(t))))
+			}
+		}
+		cond := f.Not(f.Or(isT...))
+		if newOnly[k] {
+			cond = f.And(cond, f.ULt(r, preAlloc))
+		}
+		tr.assume(f.Forall([]*Term{r}, f.Implies(cond, f.Eq(f.Select(nh, r), f.Select(old, r))), []*Term{f.Select(nh, r)}),
+			"loop stores only into objects of the listed struct types (and objects allocated inside the loop)")
+		tags := map[string]bool{}
+		for _, t := range typed[k] {
+			tags[new(big.Int).SetUint64(typeTag(t)).String()] = true
+		}
+		tr.frames2[nh] = frameInfo{old: old, maxRank: tr.allocSeq, typed: tags, newToo: newOnly[k]}
+		tr.set(fr.st, heapComp(k), nh)
+	}
+	for _, k := range heapKeys {
+		if !newOnly[k] || fullKeys[k] || len(typed[k]) > 0 {
 			continue
 		}
 		// regions that existed before the loop are untouched by stores into loop-allocated objects
